@@ -148,7 +148,7 @@ Section RecvProofs.
     rx_state st = Handshaking /\ r_type r <> ContentType_ApplicationData /\ r_type r <> ContentType_Alert.
   Proof.
     intros Hk He. unfold drop_rule, rx_drop_epoch0, RX_DROP_EPOCH, rx_drop_types_handshaking.
-    rewrite Hk. unfold RX_PLAIN_EPOCH in He. rewrite He. cbn [andb is_some Z.eqb].
+    rewrite Hk. unfold RX_PLAIN_EPOCH in He. rewrite He. cbn [is_some]. rewrite orb_true_r. cbn [andb Z.eqb].
     destruct (rx_state st), (r_type r); cbn; intros E; try discriminate; repeat split; discriminate.
   Qed.
 
@@ -188,6 +188,34 @@ Section RecvProofs.
       rewrite Ht. unfold dispatch.
       destruct (_ && _); cbn [rs_state]; intros Hne; [|contradiction].
       split; [|reflexivity]. split; [exact Ee|]. exists p0. exact Eo.
+  Qed.
+
+  (* epoch-0 ApplicationData is discarded in every state, keys or not *)
+  Lemma plain_app_dropped (st : rx H) r :
+    r_epoch r = RX_PLAIN_EPOCH -> r_type r = ContentType_ApplicationData -> drop_rule st r = true.
+  Proof.
+    intros He Ht. unfold drop_rule, rx_drop_epoch0, RX_DROP_EPOCH, rx_drop_plain_app_without_keys, rx_drop_types_handshaking.
+    unfold RX_PLAIN_EPOCH in He. rewrite He, Ht. cbn. destruct (cstate_eqb (rx_state st) Handshaking); reflexivity.
+  Qed.
+
+  (* (A') the same without assuming keys: nothing at all is delivered before keys exist, and never out of an
+     epoch-0 record *)
+  Theorem deliver_needs_keys : forall is_client (st : rx H) r p,
+    In p (rs_out (record_step open H hs_step is_client st r)) ->
+    exists k, rx_keys st = Some k /\ r_type r = ContentType_ApplicationData /\ r_epoch r <> RX_PLAIN_EPOCH /\
+              rec_open open is_client k r = Some p.
+  Proof.
+    intros is_client st r p Hin. destruct (rx_keys st) as [k|] eqn:Hk.
+    - exists k. split; [reflexivity|]. exact (deliver_only_authentic is_client st r k p Hk Hin).
+    - exfalso. revert Hin. unfold record_step.
+      destruct (drop_rule st r) eqn:Ed; [intros []|].
+      unfold try_decrypt. rewrite Hk.
+      destruct (r_epoch r =? RX_PLAIN_EPOCH) eqn:Ee; [|intros []].
+      apply Z.eqb_eq in Ee.
+      destruct (dispatch H hs_step is_client st (r_type r) (r_payload r)) as [[st1 out] e] eqn:Edis.
+      intros Hin. assert (Hin' : In p out) by (destruct e; exact Hin).
+      pose proof (dispatch_out is_client st (r_type r) (r_payload r) p) as Ho. rewrite Edis in Ho.
+      destruct (Ho Hin') as [Ht _]. rewrite (plain_app_dropped st r Ee Ht) in Ed. discriminate.
   Qed.
 
   (* (C) an unauthenticated record is inert: once the handshake is over whatever its content type; while the
